@@ -24,10 +24,18 @@ def cases(ctx, rng):
         if rng.below(3) == 0:
             # an OLD sub-directory of the temp dir holding young files named like stale siblings
             sub = "%s/.kismet_temp/staging" % D
+            for j in (0, 1):        # (stale files on both sides of the staging directory in creation order)
+                L.append("plant %s/.kismet_temp/part-%02d z 600 %d %d" % (D, j, MT.BASE - 3 * MT.HOUR, MT.BASE - 3 * MT.HOUR))
             for j in range(6):
                 L.append("plant %s/part-%02d y 600 %d %d" % (sub, j, MT.BASE - 60 * 10**9, MT.BASE - 60 * 10**9))
+            for j in (2, 3, 4, 5):
                 L.append("plant %s/.kismet_temp/part-%02d z 600 %d %d" % (D, j, MT.BASE - 3 * MT.HOUR, MT.BASE - 3 * MT.HOUR))
             L.append("mkdirt %s %d" % (sub, MT.BASE - 5 * MT.HOUR))
+        if rng.below(2):
+            # a YOUNG temp file that has a second name somewhere else (an application staged it by hard-linking
+            # an existing file): its link count says nothing about its age - it must be left alone
+            L.append("plant %s/.kismet_temp/linked z 600 %d %d" % (D, MT.BASE - 60 * 10**9, MT.BASE - 60 * 10**9))
+            L.append("ln %s/.kismet_temp/linked stage/second-name" % D)
         if rng.below(2):
             # an OLD and EMPTY directory inside the temp dir (the husk of somebody's staging area):
             # rmdir would succeed on it, and maintenance never removes directories
